@@ -1341,3 +1341,25 @@ _add("C20", "partial", [
     "the serializer model's definition on Num.lit + c03_display_number; no text -> value -> text theorem is listed (c04_value_ap is value "
     "-> text -> value)",
 ])
+
+# ---- the two real string scanners of read.rs (Model.ReadSlice / ReadIo / ReadEscape; docs/READERS-NOTES.md). Additive amendments of C09 and C05.
+READERS_RULE = (" String scanners called directly (ops rd, rs; harness/src/readers.rs): serde_json::de::{StrRead, SliceRead, IoRead} are public and "
+                "the #[doc(hidden)] methods of the sealed trait Read can be called: parse_str, parse_str_raw, ignore_str (and decode_hex_escape "
+                "wherever a \\u has just been read) after `start` calls of next(), on the three readers side by side (IoRead over a randomly chunked "
+                "io::Read), observing bytes, Reference::Borrowed vs Copied (does the returned pointer lie inside the input, at which offset), "
+                "byte_offset() afterwards, or message, category, line, column and byte_offset(). Inputs: every escape family of c01::strings() as "
+                "bare literals (all ordered pairs of \\uXXXX over the 16 surrogate-class boundary values, triples after a leading surrogate, every "
+                "plane as a pair, 1500 (thorough 20000) random pairs), all 256 byte values at 12 position classes (raw, after a backslash, at each "
+                "of the four hex positions, after a leading surrogate, after its backslash, inside the second group) closed and at the end of "
+                "input, 11 literals with \\u groups cut at every length (with quotes / newlines / non-digits among the last bytes), bodies of every "
+                "length 0..26 (thorough 40) after 0..8 spaces with each of 8 special bytes at every offset (8-byte SWAR chunk boundaries), runs of "
+                "63..1000 (thorough 4097) bytes plain / with one escape / with a control byte / unclosed / all-\\u, 16 ill-formed and 6 well-formed "
+                "UTF-8 sequences in 6 contexts, 4000 (thorough 60000) random mixtures; a subset also end to end through Deserializer::from_str / "
+                "from_slice / from_reader into String, &str, ByteBuf, IgnoredAny (op rs). Non-trivial: the bytes after `start` are not all plain "
+                "ASCII, or the call fails.")
+PROPS["C09"]["rule"] += READERS_RULE
+PROPS["C05"]["rule"] += READERS_RULE
+PROPS["C09"]["lean_targets"] = PROPS["C09"]["lean_targets"][:-1] + ["SJ.Props.C09Readers"] + PROPS["C09"]["lean_targets"][-1:]
+PROPS["C05"]["lean_targets"] = PROPS["C05"]["lean_targets"][:-1] + ["SJ.Props.C09Readers"] + PROPS["C05"]["lean_targets"][-1:]
+PROPS["C09"]["gen_keys"] = PROPS["C09"]["gen_keys"] + ["readesc.", "ReadEsc", "hex.", "swar.", "Hex", "Swar"]
+PROPS["C05"]["gen_keys"] = PROPS["C05"]["gen_keys"] + ["readesc.", "ReadEsc"]
